@@ -63,4 +63,66 @@ theorem seeds_distinct (nodes : List (Nat × Bool)) (s : SeedSeq) : ((trainAll n
   exact hij (by omega)
 
 #print axioms seeds_distinct
+/-- **C18 (pipeline level):** training a pipeline whose trainable components are all trained, with retraining disabled, changes nothing —
+    whatever seed is supplied -/
+theorem pipe_skip_is_identity {δ σ} (learn : Option SeedSeq → δ → σ) (comps : List (Comp σ × Bool)) (d : δ) (seed : Option SeedSeq)
+    (h : ∀ p ∈ comps, p.2 = true → p.1.learned.isSome) : pipeTrain learn comps d false seed = comps := by
+  induction comps generalizing seed with
+  | nil => rfl
+  | cons p rest ih =>
+    obtain ⟨c, t⟩ := p
+    have hr : ∀ p ∈ rest, p.2 = true → p.1.learned.isSome := fun p hp => h p (List.mem_cons_of_mem _ hp)
+    cases t with
+    | false => simp [pipeTrain, ih _ hr]
+    | true =>
+      have hc : c.learned.isSome := h (c, true) (List.mem_cons_self) rfl
+      cases seed with
+      | none => simp [pipeTrain, ih _ hr, skip_is_identity _ c d hc]
+      | some s => simp [pipeTrain, ih _ hr, skip_is_identity _ c d hc]
+
+/-- **C18 (pipeline level):** retraining a pipeline equals training the same pipeline with fresh trainable components -/
+theorem pipe_retrain_eq_fresh {δ σ} (learn : Option SeedSeq → δ → σ) (comps : List (Comp σ × Bool)) (d : δ) (seed : Option SeedSeq) :
+    pipeTrain learn comps d true seed
+      = pipeTrain learn (comps.map (fun p => (if p.2 then { learned := none } else p.1, p.2))) d true seed := by
+  induction comps generalizing seed with
+  | nil => rfl
+  | cons p rest ih =>
+    obtain ⟨c, t⟩ := p
+    cases t with
+    | false => simp [pipeTrain, ih]
+    | true =>
+      cases seed with
+      | none => simp [pipeTrain, ← ih, train]
+      | some s => simp [pipeTrain, ← ih, train]
+
+/-- the components a pipeline training passes over keep their state, and the shape of the pipeline is unchanged -/
+theorem pipe_shape {δ σ} (learn : Option SeedSeq → δ → σ) (comps : List (Comp σ × Bool)) (d : δ) (r : Bool) (seed : Option SeedSeq) :
+    (pipeTrain learn comps d r seed).map (·.2) = comps.map (·.2)
+    ∧ ∀ (i : Nat) (c : Comp σ), comps[i]? = some (c, false) → (pipeTrain learn comps d r seed)[i]? = some (c, false) := by
+  induction comps generalizing seed with
+  | nil => simp [pipeTrain]
+  | cons p rest ih =>
+    obtain ⟨c, t⟩ := p
+    cases t with
+    | false =>
+      refine ⟨by simp [pipeTrain, (ih seed).1], ?_⟩
+      intro i c' hi
+      cases i with
+      | zero => simpa [pipeTrain] using hi
+      | succ j => simpa [pipeTrain] using (ih seed).2 j c' (by simpa using hi)
+    | true =>
+      cases seed with
+      | none =>
+        refine ⟨by simp [pipeTrain, (ih none).1], ?_⟩
+        intro i c' hi
+        cases i with
+        | zero => simp at hi
+        | succ j => simpa [pipeTrain] using (ih none).2 j c' (by simpa using hi)
+      | some s =>
+        refine ⟨by simp [pipeTrain, (ih _).1], ?_⟩
+        intro i c' hi
+        cases i with
+        | zero => simp at hi
+        | succ j => simpa [pipeTrain] using (ih _).2 j c' (by simpa using hi)
+
 end LK.Train
